@@ -4,6 +4,8 @@ import UberjobModel.Props.C04
 #print axioms Uberjob.Engine.C04_place
 #print axioms Uberjob.Engine.C04_only_graph_nodes
 #print axioms Uberjob.Engine.C04_exact
+#print axioms Uberjob.Engine.C04_only_needed
+#print axioms Uberjob.Engine.C04_runs_exactly_needed
 #print axioms Uberjob.Engine.C04_random_put_perm
 #print axioms Uberjob.Engine.C04_random_get_perm
 #print axioms Uberjob.Engine.C04_queue_shapes
